@@ -850,7 +850,12 @@ class Builder(object):
                     index += 1
 
                 elif connective == 'per':
-                    data, index = self.parseDirect(tokens, index)
+                    # rx and tx are clause keywords of this verb but not reserved
+                    # words so direct data ends at the next rx or tx clause
+                    end = index
+                    while end < len(tokens) and tokens[end] not in ('rx', 'tx'):
+                        end += 1
+                    data, index = self.parseDirect(tokens[:end], index)
                     init.update(data)
 
                 elif connective == 'for':
